@@ -276,6 +276,33 @@ def r09_5(ctx, rep):
     module_state_free(ctx, rep, "R09.5", TREE, "tree.py (expand_connectors and its helpers)")
 
 
+@SPEC.rule(
+    "R09.6",
+    "connection sets only grow: expand_connectors never empties, pops from or deletes from a set it got out of the connection tables — the set "
+    "fetched for the right end may be the very object fetched for the left end (a connect that closes a cycle), so clearing `the absorbed one` "
+    "wipes the merged set",
+)
+def r09_6(ctx, rep):
+    R = "R09.6"
+    fn = _fn(ctx, R) if "_fn" in globals() else ctx.func(TREE, "expand_connectors", R)
+    site = TREE + ":expand_connectors"
+    sets = {st.targets[0].id for st in ast.walk(fn) if isinstance(st, ast.Assign) and isinstance(st.targets[0], ast.Name) and isinstance(st.value, ast.Call)
+            and isinstance(st.value.func, ast.Attribute) and st.value.func.attr in ("get", "setdefault", "pop")}
+    sets |= {st.targets[0].id for st in ast.walk(fn) if isinstance(st, ast.Assign) and isinstance(st.targets[0], ast.Name) and isinstance(st.value, ast.Name) and st.value.id in sets}
+    if len(sets) < 2:
+        raise MechanismMissing(R, "fewer than 2 locals fetched from the connection tables")
+    bad = []
+    for c in calls(fn):
+        if isinstance(c.func, ast.Attribute) and isinstance(c.func.value, ast.Name) and c.func.value.id in sets and c.func.attr in ("clear", "pop", "popitem", "remove", "discard", "difference_update"):
+            bad.append("line %d: %s" % (c.lineno, norm(c)[:60]))
+    for st in ast.walk(fn):
+        if isinstance(st, ast.Delete):
+            for t in st.targets:
+                if isinstance(t, ast.Subscript) and isinstance(t.value, ast.Name) and t.value.id in sets:
+                    bad.append("line %d: %s" % (st.lineno, norm(st)[:60]))
+    rep.ob(R, site, "no connection set is shrunk", not bad, "; ".join(bad[:3]) + " — members disappear from a set that other keys still point to: they are in no flow sum and get no zero-flow default either")
+
+
 # -- seeded variants ---------------------------------------------------------
 from ._mut import delete_stmt_where, replace_in_func  # noqa: E402
 
@@ -322,6 +349,22 @@ def _m5(mod):
             if isinstance(st, ast.Assign) and norm(st.targets[0]) == "connected_variables[right_key]":
                 st.value = ast.parse("(right, equation.__left_inner)", mode="eval").body
                 return True
+        return False
+
+    return mod if replace_in_func(mod, "expand_connectors", edit) else None
+
+
+@SPEC.mutant("absorbed right-hand set cleared", TREE, "R09.6", "no connection set is shrunk")
+def _m_clear_right(mod):
+    def edit(fn):
+        for n in ast.walk(fn):
+            for f in ("body", "orelse"):
+                lst = getattr(n, f, None)
+                if isinstance(lst, list):
+                    for i, st in enumerate(lst):
+                        if isinstance(st, ast.Expr) and norm(st).endswith(".update(right_connected_variables)"):
+                            lst.insert(i + 1, ast.parse("right_connected_variables.clear()").body[0])
+                            return True
         return False
 
     return mod if replace_in_func(mod, "expand_connectors", edit) else None
